@@ -1,11 +1,12 @@
 #!/bin/bash
 # try_mutant.sh <property> <patch.diff> [tier]: apply a seeded change to /repo, run the check, undo it
+# (the evidence of that run goes to /tmp/mut/evidence, never to /verif/evidence)
 id=$1; patch=$2; tier=${3:-quick}
 mkdir -p /tmp/mut
 cd /repo || exit 2
 git apply "$patch" || { echo "patch does not apply"; exit 2; }
 cd /verif
-python3-vt vp/check.py $id --tier $tier > /tmp/mut/$id.$tier.out 2>&1
+VP_EVIDENCE_DIR=/tmp/mut/evidence python3-vt vp/check.py $id --tier $tier > /tmp/mut/$id.$tier.out 2>&1
 rc=$?
 git -C /repo checkout -- .
 echo "== $id ($tier) exit=$rc"; grep -E "VIOLATION|obligation:|KNOWN|INCONCLUSIVE|CHECK-ERROR|tier=" /tmp/mut/$id.$tier.out | cut -c1-400 | head -12
